@@ -193,14 +193,15 @@ type config struct {
 }
 
 type setup struct {
-	e      *env
-	node   *pc.PocketNode
-	hb     *pc.HostedBlockchains
-	relays []pc.Relay
-	header pc.SessionHeader
-	max    sdk.BigInt
-	byHash map[string]int // proof hash -> proof id
-	sbh    int64
+	appKey, clientKey crypto.Ed25519PrivateKey
+	e                 *env
+	node              *pc.PocketNode
+	hb                *pc.HostedBlockchains
+	relays            []pc.Relay
+	header            pc.SessionHeader
+	max               sdk.BigInt
+	byHash            map[string]int // proof hash -> proof id
+	sbh               int64
 }
 
 func mkSetup(r *gen.R, c config) *setup {
@@ -209,6 +210,7 @@ func mkSetup(r *gen.R, c config) *setup {
 	h := int64(41)
 	s.e = &env{height: h, bps: bps, worlds: map[int64]*world{}, maxChainsApp: 15, maxChainsPos: 15}
 	nodeKey, appKey, clientKey := edKey(r), edKey(r), edKey(r)
+	s.appKey, s.clientKey = appKey, clientKey
 	s.node = &pc.PocketNode{PrivateKey: nodeKey, EvidenceStore: newStore(), SessionStore: newStore()}
 	s.sbh = latestSession(h, bps)
 	w := &world{apps: map[string]appsTypes.Application{}, count: 3}
@@ -458,6 +460,138 @@ func runConfig(r *gen.R, c config, sample int) {
 	})
 }
 
+// ---------------------------------------------------------------- serial multi-session scenarios, small cache
+
+// serialCase: relays handled strictly one at a time for several sessions of one servicer whose
+// evidence store has a tiny LRU capacity; mixed with the claim loop's iterator (flush) and seals.
+// ops: "r<s>.<p>" relay of session s with proof id p (a replay when p was answered before),
+//
+//	"it" open the evidence iterator and snapshot every evidence (EvidenceIterator: flush),
+//	"sl<s>" seal session s with the snapshot of the last "it" (GenerateMerkleRoot -> SealEvidence).
+func serialCase(r *gen.R, capEntries, nSessions int, max int64, nOps int) {
+	c := config{name: "serial", max: max, ids: []int{0}}
+	s := mkSetup(r, c)
+	// sessions differ by chain: the application is staked for all of them, the node hosts all
+	chains := []string{"0001", "0002", "0003", "0004", "0005"}[:nSessions]
+	for _, w := range s.e.worlds {
+		for a, app := range w.apps {
+			app.Chains = chains
+			app.MaxRelays = sdk.NewInt(max * int64(len(chains)) * 3)
+			w.apps[a] = app
+		}
+		for i := range w.vals {
+			w.vals[i].Chains = chains
+		}
+	}
+	hb := &pc.HostedBlockchains{M: map[string]pc.HostedBlockchain{}}
+	for _, ch := range chains {
+		hb.M[ch] = pc.HostedBlockchain{ID: ch, URL: "http://127.0.0.1:1"}
+	}
+	store := &pc.CacheStorage{}
+	store.Init("", "", tmcfg.DefaultLevelDBOpts(), capEntries, true)
+	store.SealMap = &sync.Map{}
+	s.node.EvidenceStore = store
+	appKey, clientKey := s.appKey, s.clientKey
+	mkRelay := func(sess, id int) pc.Relay {
+		rel := s.relays[0]
+		rel.Payload.Data = fmt.Sprintf(`{"s":%d,"id":%d}`, sess, id)
+		rel.Proof.Blockchain = chains[sess]
+		rel.Proof.Entropy = int64(5000 + 100*sess + id)
+		rel.Proof.RequestHash = rel.RequestHashString()
+		signToken(appKey, &rel.Proof.Token)
+		signProof(clientKey, &rel.Proof)
+		return rel
+	}
+	ctx := hctx{mkCtx(s.e.height), s.e}
+	next := make([]int, nSessions)       // next fresh proof id per session
+	answered := make([][]int, nSessions) // answered ids per session
+	snap := map[int]pc.Evidence{}
+	var ops, res []string
+	headerOf := func(sess int) pc.SessionHeader { return mkRelay(sess, 0).Proof.SessionHeader() }
+	maxBig := sdk.NewInt(max)
+	for k := 0; k < nOps; k++ {
+		switch x := r.Intn(10); {
+		case x < 7:
+			sess := r.Intn(nSessions)
+			id := next[sess]
+			if len(answered[sess]) > 0 && r.Chance(1, 4) {
+				id = answered[sess][r.Intn(len(answered[sess]))] // replay
+			} else {
+				next[sess]++
+			}
+			rel := mkRelay(sess, id)
+			out := func() (o string) {
+				defer func() {
+					if recover() != nil {
+						o = "PANIC"
+					}
+				}()
+				m, err := rel.Validate(ctx, posStub{s.e}, appsStub{s.e}, pocketStub{s.e}, hb, s.sbh, s.node)
+				if err != nil {
+					return fmt.Sprint(err.Code())
+				}
+				rel.Proof.Store(m, store)
+				return "ok"
+			}()
+			if out == "ok" {
+				answered[sess] = append(answered[sess], id)
+			}
+			ops = append(ops, fmt.Sprintf("r%d.%d", sess, id))
+			res = append(res, out)
+		case x < 8:
+			it := pc.EvidenceIterator(store)
+			snap = map[int]pc.Evidence{}
+			for ; it.Valid(); it.Next() {
+				ev := it.Value()
+				for i := 0; i < nSessions; i++ {
+					if ev.SessionHeader.HashString() == headerOf(i).HashString() {
+						snap[i] = ev
+					}
+				}
+			}
+			it.Close()
+			ops = append(ops, "it")
+			res = append(res, "-")
+		default:
+			sess := r.Intn(nSessions)
+			ev, ok := snap[sess]
+			if ok {
+				pc.SealEvidence(ev, store)
+				res = append(res, "sealed")
+			} else {
+				res = append(res, "nosnap")
+			}
+			ops = append(ops, fmt.Sprintf("sl%d", sess))
+		}
+	}
+	// final observation per session
+	var fin []string
+	for i := 0; i < nSessions; i++ {
+		st, nn, sealed := "-", int64(0), false
+		if ev, err := pc.GetEvidence(headerOf(i), pc.RelayEvidence, sdk.ZeroInt(), store); err == nil {
+			var ids []string
+			for _, p := range ev.Proofs {
+				var ent int64
+				switch rp := p.(type) {
+				case pc.RelayProof:
+					ent = rp.Entropy
+				case *pc.RelayProof:
+					ent = rp.Entropy
+				}
+				ids = append(ids, fmt.Sprint(ent-int64(5000+100*i)))
+			}
+			if len(ids) > 0 {
+				st = strings.Join(ids, ".")
+			}
+			nn = ev.NumOfProofs
+			sealed = store.IsSealed(ev)
+		}
+		fin = append(fin, fmt.Sprintf("%s/%d/%v", st, nn, sealed))
+	}
+	_ = maxBig
+	t.Line("serial", true, "serial cap=%d max=%d sessions=%d ops=%s => res=%s final=%s", capEntries, max, nSessions, strings.Join(ops, ","), strings.Join(res, ","), strings.Join(fin, ";"))
+}
+
 // ---------------------------------------------------------------- free-running HandleRelay
 
 type baseCtxMS = sdk.Context
@@ -590,6 +724,7 @@ func main() {
 	max := flag.Int64("max", 4, "")
 	seal := flag.Bool("seal", false, "")
 	freeRuns := flag.Int("free", 0, "number of free-running rounds (each in a child process)")
+	serial := flag.Int("serial", 0, "number of serial multi-session scenarios with a small evidence cache")
 	flag.Parse()
 	pc.InitGlobalServiceMetric(&pc.HostedBlockchains{M: map[string]pc.HostedBlockchain{}}, log.NewNopLogger(), "0", 10)
 	pc.GlobalPocketConfig = sdk.DefaultTestingPocketConfig().PocketConfig
@@ -632,6 +767,9 @@ func main() {
 		// quick: a sample (every 40th schedule) of three relays
 		runConfig(r, config{name: "three-distinct", max: 5, ids: []int{1, 2, 3}}, 40)
 		runConfig(r, config{name: "three-distinct-max2", max: 2, ids: []int{1, 2, 3}}, 40)
+	}
+	for i := 0; i < *serial; i++ {
+		serialCase(r, 1+i%3, 3+i%2, int64(2+i%3), 10+r.Intn(14))
 	}
 	// free-running rounds in child processes (the child is this binary; built with -race when the check asks for it)
 	for i := 0; i < *freeRuns; i++ {
